@@ -818,3 +818,145 @@ def format_arity(chk, rule, rels, floor=20):
                        where(mod, x), 'the format string has %d conversion specifier(s), %d value(s) are supplied '
                                       '(`%s`): TypeError when this line runs' % (want, got, norm(x)[:90]))
     chk.floor(rule, floor, 'format operations')
+
+
+def no_value_taken_from_an_absent_operand(chk, rule, rels, floor=10):
+    """`if not V: ... V ...` - inside the branch that is taken when V is false/empty/None, V itself is used as a
+    value (stored, passed on, indexed).  Optional clause parts are filled in under `if part:`; the negated form fills
+    the field exactly when there is nothing to fill it with (and leaves it out when there is)."""
+    import ast as _ast
+    from vt.model import walk_no_nested, norm
+    from vt.runner import where
+    chk.doc(rule, 'in no function is a value used (stored, passed as an argument, subscripted) inside the branch that '
+                  'is only taken when that same value is false: `if not V: <uses V>` / `if V: .. else: <uses V>`; '
+                  'tests, truth-value uses and re-assignments of V in that branch are fine')
+    n = 0
+
+    def uses(body, key):
+        out = []
+        for st in body:
+            rebound = False
+            for x in _ast.walk(st):
+                if isinstance(x, (_ast.Name, _ast.Subscript, _ast.Attribute)) and norm(x) == key and \
+                        isinstance(getattr(x, 'ctx', None), _ast.Load):
+                    par = getattr(x, '_parent', None)
+                    if isinstance(par, (_ast.If, _ast.While, _ast.IfExp)) and par.test is x:
+                        continue
+                    if isinstance(par, (_ast.UnaryOp, _ast.Compare)):
+                        continue
+                    if isinstance(par, _ast.BoolOp) and par.values[-1] is not x:
+                        continue        # an operand that is only tested
+                    if isinstance(par, _ast.Call) and norm(par.func) in ('isinstance', 'len', 'bool', 'str', 'repr',
+                                                                          'type'):
+                        continue
+                    if isinstance(par, (_ast.BinOp,)) and isinstance(par.op, _ast.Mod):
+                        continue        # message formatting
+                    if isinstance(par, (_ast.Tuple,)) and isinstance(getattr(par, '_parent', None), _ast.BinOp):
+                        continue
+                    if isinstance(par, _ast.Return) and par.value is x:
+                        continue        # handing the empty value back unchanged
+                    # part of a larger access path of the same root (V is `a[0]`, use is `a[0][1]`): still a use
+                    out.append(x)
+            for x in _ast.walk(st):
+                if isinstance(x, (_ast.Assign, _ast.AugAssign)):
+                    tg = x.targets if isinstance(x, _ast.Assign) else [x.target]
+                    if any(norm(t) == key or (isinstance(t, _ast.Name) and key.startswith(t.id + '[')) for t in tg):
+                        rebound = True
+            if rebound:
+                break
+        return out
+    for rel in rels:
+        mod = chk.model.mod(rel, required=False)
+        if mod is None:
+            continue
+        for fn in [f for f in _ast.walk(mod.tree) if isinstance(f, _ast.FunctionDef)]:
+            for st in walk_no_nested(fn):
+                if not isinstance(st, _ast.If):
+                    continue
+                t = st.test
+                branches = []
+                if isinstance(t, _ast.UnaryOp) and isinstance(t.op, _ast.Not) and \
+                        isinstance(t.operand, (_ast.Name, _ast.Subscript, _ast.Attribute)):
+                    branches.append((norm(t.operand), st.body))
+                elif isinstance(t, (_ast.Name, _ast.Subscript, _ast.Attribute)) and st.orelse:
+                    branches.append((norm(t), st.orelse))
+                for key, body in branches:
+                    if key in ('self', 'debug.logger'):
+                        continue
+                    n += 1
+                    us = uses(body, key)
+                    chk.ob(rule, '%s:%s/absent `%s`' % (rel.split('/')[-1], fn.name, key[:40]), not us,
+                           where(mod, us[0]) if us else where(mod, st),
+                           '`%s` is used as a value (%s) in the branch taken only when it is false / empty / None' % (
+                               key, norm(getattr(us[0], '_parent', us[0]))[:70] if us else ''))
+    chk.floor(rule, floor, 'negative truth tests')
+
+
+def as_conditional(fn_or_expr):
+    """Decode the repository's three spellings of a two-way choice into (test, value-if-true, value-if-false):
+    `T and A or B` (A a non-empty tuple / string / number display, so the idiom is exact), `A if T else B`, and - for a
+    function - `if T: return A` followed by `return B` (or if/else returns).  None if it is none of these."""
+    import ast as _ast
+
+    def truthy_display(e):
+        return (isinstance(e, _ast.Tuple) and len(e.elts) > 0) or \
+            (isinstance(e, _ast.Constant) and bool(e.value) and not isinstance(e.value, bool)) or \
+            (isinstance(e, (_ast.List, _ast.Dict)) and (getattr(e, 'elts', None) or getattr(e, 'keys', None)))
+
+    def of_expr(e):
+        if isinstance(e, _ast.IfExp):
+            return e.test, e.body, e.orelse
+        if isinstance(e, _ast.BoolOp) and isinstance(e.op, _ast.Or) and len(e.values) == 2 and \
+                isinstance(e.values[0], _ast.BoolOp) and isinstance(e.values[0].op, _ast.And) and \
+                len(e.values[0].values) == 2 and truthy_display(e.values[0].values[1]):
+            return e.values[0].values[0], e.values[0].values[1], e.values[1]
+        return None
+    if isinstance(fn_or_expr, _ast.expr):
+        return of_expr(fn_or_expr)
+    body = [s for s in fn_or_expr.body if not (isinstance(s, _ast.Expr) and isinstance(s.value, _ast.Constant))]
+    if not body:
+        return None
+    last = body[-1]
+    if isinstance(last, _ast.Return) and last.value is not None:
+        r = of_expr(last.value)
+        if r:
+            return r
+        if len(body) >= 2 and isinstance(body[-2], _ast.If) and not body[-2].orelse and len(body[-2].body) == 1 and \
+                isinstance(body[-2].body[0], _ast.Return):
+            return body[-2].test, body[-2].body[0].value, last.value
+    if isinstance(last, _ast.If) and len(last.body) == 1 and len(last.orelse) == 1 and \
+            isinstance(last.body[0], _ast.Return) and isinstance(last.orelse[0], _ast.Return):
+        return last.test, last.body[0].value, last.orelse[0].value
+    return None
+
+
+CASE_METHODS = ('upper', 'lower', 'title', 'capitalize', 'casefold', 'swapcase')
+
+
+def names_are_case_sensitive(chk, rule, rels, audited=(), floor=1):
+    """SMI names are case-sensitive (`ipAddress` is an object, `IpAddress` a type): the code generators never map the
+    case of a name taken from the MIB before comparing, looking up or emitting it."""
+    import ast as _ast
+    from vt.model import norm
+    from vt.runner import where
+    chk.doc(rule, 'no str case mapping (upper / lower / title / capitalize / casefold / swapcase) is applied to a value in '
+                  'the code generators: names are compared, looked up and emitted exactly as written (audited '
+                  'exceptions: %s)' % (', '.join(audited) or 'none'))
+    n = 0
+    for rel in rels:
+        mod = chk.model.mod(rel, required=False)
+        if mod is None:
+            continue
+        n += 1
+        hits = []
+        for fn in [f for f in _ast.walk(mod.tree) if isinstance(f, _ast.FunctionDef)]:
+            for c in _ast.walk(fn):
+                if isinstance(c, _ast.Call) and isinstance(c.func, _ast.Attribute) and c.func.attr in CASE_METHODS and \
+                        not c.args and '%s:%s' % (rel.split('/')[-1], fn.name) not in audited:
+                    hits.append((fn, c))
+        for fn, c in hits:
+            chk.ob(rule, '%s:%s/%s' % (rel.split('/')[-1], fn.name, norm(c)[:40]), False, where(mod, c),
+                   '`%s`: a name that differs from a keyword only by case is taken for it' % norm(c)[:60])
+        if not hits:
+            chk.ob(rule, '%s/no-case-mapping' % rel, True, rel, '')
+    chk.floor(rule, floor, 'modules scanned')
